@@ -373,23 +373,31 @@ func CleanStream(t *rapid.T, maxSegs, maxLen int, allowTail bool) Stream {
 	return s
 }
 
-// Expected computes the constructive expectation for a clean stream.
+// Expected computes the constructive expectation for a clean stream: frames
+// typed with their own bytes, adjacent junk runs merged, a corrupted frame
+// (kind "corrupt", leader intact) or truncated tail as one non-RTCM message.
 func Expected(s Stream) []Expect {
 	var out []Expect
+	prevJunk := false
 	for _, g := range s.Segs {
+		if len(g.Data) == 0 {
+			continue
+		}
 		switch g.Kind {
 		case "valid":
 			out = append(out, Expect{Typed: true, Type: ref.TypeOf(g.Data), Data: g.Data})
-		default:
-			if len(g.Data) == 0 {
-				continue
-			}
-			if len(out) > 0 && !out[len(out)-1].Typed && g.Kind == "junk" {
+			prevJunk = false
+		case "junk":
+			if prevJunk {
 				last := &out[len(out)-1]
 				last.Data = append(append(stats.Hex{}, last.Data...), g.Data...)
 			} else {
 				out = append(out, Expect{Typed: false, Type: -1, Data: append(stats.Hex{}, g.Data...)})
 			}
+			prevJunk = true
+		default:
+			out = append(out, Expect{Typed: false, Type: -1, Data: append(stats.Hex{}, g.Data...)})
+			prevJunk = false
 		}
 	}
 	return out
